@@ -13,6 +13,10 @@
 #include <sched.h>
 #include <stdatomic.h>
 #include <sys/syscall.h>
+#include <signal.h>
+#include <stdarg.h>
+#include <dlfcn.h>
+#include <linux/futex.h>
 typedef void (*cb_t)(const volatile void *addr, unsigned size, int op, uint64_t o, uint64_t n, const char *func, int line);
 extern cb_t _dispatch_verif_atomic_cb;
 extern void (*_dispatch_verif_yield_cb)(const volatile void *addr, const char *func, int line);
@@ -28,29 +32,41 @@ static void cb(const volatile void *addr, unsigned size, int op, uint64_t o, uin
   unsigned long k=atomic_fetch_add(&nev,1); if(k>=MAXEV) return; evs[k]=(ev_t){atomic_fetch_add(&seq,1),mytid,(int)d,op,o,n,func}; }
 static void ycb(const volatile void *addr, const char *func, int line){ (void)func;(void)line;
   long d=(long)((dispatch_once_t*)addr-preds); if((char*)addr<(char*)preds || d>=rounds) return; uint64_t r=rnd()%6; if(r==0) sched_yield(); else if(r==1) usleep(rnd()%60); }
+// the environment of the waiters: a FUTEX_WAIT may return 0 without a matching wake (futex(2): spurious wake-ups), and a signal
+// whose handler was installed without SA_RESTART interrupts it; neither means that the initialiser has completed
+static long (*real_syscall)(long, ...); static int inject; static atomic_long spurious, pings;
+long syscall(long n, ...){ va_list ap; va_start(ap,n); long a0=va_arg(ap,long),a1=va_arg(ap,long),a2=va_arg(ap,long),a3=va_arg(ap,long),a4=va_arg(ap,long),a5=va_arg(ap,long); va_end(ap);
+  if(!real_syscall) real_syscall=(long(*)(long,...))dlsym(RTLD_NEXT,"syscall");
+  if(n==SYS_futex && (a1&FUTEX_CMD_MASK)==FUTEX_WAIT && inject && a0>=(long)preds && a0<(long)(preds+rounds) && rnd()%4==0){ atomic_fetch_add(&spurious,1); return 0; }
+  return real_syscall(n,a0,a1,a2,a3,a4,a5); }
+static void on_usr1(int sig){ (void)sig; }
 static atomic_int viol; static char vmsg[300];
 static void fail(const char *m, long a, long b, long c){ if(!atomic_exchange(&viol,1)) snprintf(vmsg,sizeof vmsg,"%s %ld %ld %ld",m,a,b,c); }
-struct round { _Atomic int inits; _Atomic int init_done; _Atomic int returned; int n; pthread_barrier_t bar; int idx; };
+struct round { _Atomic int inits; _Atomic int init_done; _Atomic int returned; _Atomic int release; int n; pthread_barrier_t bar; int idx; };
 static void initfn(void *c){ struct round *r=c; if(atomic_fetch_add(&r->inits,1)) fail("initialiser executed more than once: round",r->idx,0,0);
-  if(rnd()%2) usleep(rnd()%300); else sched_yield(); atomic_store(&r->init_done,1); }
+  if(rnd()%2) usleep(rnd()%300); else if(rnd()%4==0) usleep(500+rnd()%1500); else sched_yield(); atomic_store(&r->init_done,1); }
 static void *racer(void *c){ struct round *r=c; pthread_barrier_wait(&r->bar); if(rnd()%3==0) usleep(rnd()%100);
   dispatch_once_f(&preds[r->idx], r, initfn);
   if(!atomic_load(&r->init_done)) fail("dispatch_once returned before the initialiser had completed: round",r->idx,0,0);
-  atomic_fetch_add(&r->returned,1); return NULL; }
+  atomic_fetch_add(&r->returned,1);
+  while(!atomic_load(&r->release)) usleep(50);   // stay alive while the main thread may still signal this thread
+  return NULL; }
 int main(int argc,char**argv){ seed=argc>1?strtoull(argv[1],0,0):1; rounds=argc>2?atoi(argv[2]):200; if(rounds>MAXR) rounds=MAXR;
   preds=calloc((size_t)rounds,sizeof *preds); evs=calloc(MAXEV,sizeof *evs);
+  struct sigaction sa; memset(&sa,0,sizeof sa); sa.sa_handler=on_usr1; sigaction(SIGUSR1,&sa,0); inject=1;
   _dispatch_verif_yield_cb=ycb; _dispatch_verif_atomic_cb=cb; long calls=0;
   for(int i=0;i<rounds && !viol;i++){ struct round r; memset(&r,0,sizeof r); r.idx=i; r.n=2+(int)(rnd()%23); pthread_barrier_init(&r.bar,NULL,(unsigned)r.n);
     pthread_t th[32]; for(int k=0;k<r.n;k++) pthread_create(&th[k],0,racer,&r);
-    for(int w=0; w<10000 && atomic_load(&r.returned)<r.n && !viol; w++) usleep(1000);
-    if(atomic_load(&r.returned)<r.n){ fail("callers of dispatch_once were never released although the initialiser completed: round/returned/callers",i,atomic_load(&r.returned),r.n); break; }
+    for(int w=0; w<100000 && atomic_load(&r.returned)<r.n && !viol; w++){ if(i%2){ for(int k=0;k<r.n;k++) pthread_kill(th[k],SIGUSR1); atomic_fetch_add(&pings,1); } usleep(100); }
+    if(atomic_load(&r.returned)<r.n){ fail("callers of dispatch_once were never released although the initialiser completed: round/returned/callers",i,atomic_load(&r.returned),r.n); atomic_store(&r.release,1); break; }
+    atomic_store(&r.release,1);
     for(int k=0;k<r.n;k++) pthread_join(th[k],0);
     if(r.inits!=1) fail("initialiser execution count != 1: round/count",i,r.inits,0);
     dispatch_once_f(&preds[i], &r, initfn); if(r.inits!=1) fail("a later call ran the initialiser again: round",i,0,0);
     if(preds[i]!=~0l) fail("predicate not DONE after completion: round",i,0,0);
     calls+=r.n; pthread_barrier_destroy(&r.bar); }
-  _dispatch_verif_atomic_cb=0; _dispatch_verif_yield_cb=0;
-  if(viol) printf("ORACLE VIOL seed=%llu %s\n",(unsigned long long)seed,vmsg); else printf("ORACLE ok items=%ld events=%lu rounds=%d\n",calls,atomic_load(&nev),rounds);
+  _dispatch_verif_atomic_cb=0; _dispatch_verif_yield_cb=0; inject=0;
+  if(viol) printf("ORACLE VIOL seed=%llu %s\n",(unsigned long long)seed,vmsg); else printf("ORACLE ok items=%ld events=%lu rounds=%d spurious_futex_returns=%ld signal_rounds_pings=%ld\n",calls,atomic_load(&nev),rounds,atomic_load(&spurious),atomic_load(&pings));
   unsigned long n=atomic_load(&nev); if(n>MAXEV) n=MAXEV;
   for(unsigned long i=0;i<n;i++){ ev_t *e=&evs[i]; printf("E %lu %d %d %d %016lx %016lx %s\n",e->seq,e->tid,e->idx,e->op,e->o,e->n,e->func); }
   return viol?1:0; }
